@@ -4,7 +4,7 @@
    porepy/grids/grid_extrusion.py:extrude_grid); proofs: PP.Proofs.C23. *)
 From Coq Require Import List ZArith QArith Qabs Arith Lia.
 Import ListNotations.
-From PP Require Import Model.C23 Proofs.C23 Proofs.C23_refine1d.
+From PP Require Import Model.C23 Proofs.C23 Proofs.C23_refine1d Proofs.C23_signs.
 Close Scope Q_scope.
 
 (* refine_grid_1d, one cell.  For every ratio r >= 1 and every cell (a, b) in 3-space the r
@@ -45,6 +45,19 @@ Theorem C23_refine_1d_grid :
   length ind = 2 * (length cells * r).
 Proof. exact refine_grid_1d_cells. Qed.
 Print Assumptions C23_refine_1d_grid.
+
+(* refine_grid_1d, sign array (cell_faces.data): one sign per index, +1 exactly at the first
+   occurrence of a face (= node) index in the index array and -1 at every later one; so a
+   face shared by two consecutive cells is +1 for the first and -1 for the second. *)
+Theorem C23_refine_1d_signs :
+  forall (nodes : list v3) (cells : list (nat * nat)) (r : nat),
+  let '(x, ind, sg) := refine_grid_1d nodes cells r in
+  length sg = length ind /\
+  (forall i, i < length ind ->
+     (nth i sg 0%Z = 1%Z /\ ~ In (nth i ind 0) (firstn i ind)) \/
+     (nth i sg 0%Z = (-1)%Z /\ In (nth i ind 0) (firstn i ind))).
+Proof. exact refine_1d_signs. Qed.
+Print Assumptions C23_refine_1d_signs.
 
 (* refine_grid_1d, cell map: the refined grid lists the children cell by cell; new cell
    k*r + i is child i of old cell k, and j -> j / r is a total map onto the old cells. *)
